@@ -53,11 +53,14 @@ type openSpec struct {
 }
 
 type roundSpec struct {
-	Ops    []opSpec   `json:"handler_changes"`
-	Know   string     `json:"knowledge_mode"` // identify | none | accurate | stale | superset | partial
-	NoWait bool       `json:"open_while_identify_push_in_flight,omitempty"`
-	Inject *[]string  `json:"knowledge_injected"` // nil: left as identify / earlier opens made it
-	Opens  []openSpec `json:"opens"`              // opened concurrently
+	Ops    []opSpec `json:"handler_changes"`
+	Know   string   `json:"knowledge_mode"` // identify | none | accurate | stale | superset | partial
+	NoWait bool     `json:"open_while_identify_push_in_flight,omitempty"`
+	// SlowGreet: in this round every handler waits 30 ms (virtual) before it greets, and the openers whose
+	// first use is a Read poll with 5 ms read deadlines (timeouts before the first byte are ordinary use)
+	SlowGreet bool       `json:"handlers_greet_after_30ms_openers_poll_with_5ms_deadlines,omitempty"`
+	Inject    *[]string  `json:"knowledge_injected"` // nil: left as identify / earlier opens made it
+	Opens     []openSpec `json:"opens"`              // opened concurrently
 }
 
 type caseSpec struct {
@@ -191,6 +194,7 @@ func genCase(rng *rand.Rand, idx int, thorough, allowBlank bool) *caseSpec {
 		}
 		modes := []string{"identify", "identify", "none", "none", "accurate", "stale", "stale", "superset", "partial"}
 		rd.Know = modes[rng.IntN(len(modes))]
+		rd.SlowGreet = rng.IntN(5) == 0
 		if rd.Know == "stale" && len(stale) == 0 {
 			rd.Know = "superset"
 		}
@@ -314,6 +318,7 @@ func playRounds(c *caseSpec, opener, lis *node, e env, res *caseResult) {
 		// statement: "a handler removed BEFORE negotiation is never invoked" - the change is complete (and
 		// identify's push of the new protocol list has been delivered) before any stream is opened
 		e.afterChange(tab, !rd.NoWait)
+		log.slow.Store(rd.SlowGreet && e.exact)
 		if rd.Inject != nil {
 			opener.ps.SetProtocols(lis.key.ID, protocol.ConvertFromStrings(*rd.Inject)...)
 		}
@@ -329,7 +334,7 @@ func playRounds(c *caseSpec, opener, lis *node, e env, res *caseResult) {
 				defer wg.Done()
 				ctx, cancel := context.WithTimeout(context.Background(), time.Minute)
 				defer cancel()
-				rr.Opens[k] = doOpen(ctx, opener.h, lis.key.ID, k, op.Req, op.ReadFirst, op.CWFirst, mkNonce(c.Idx, ri, k))
+				rr.Opens[k] = doOpen(ctx, opener.h, lis.key.ID, k, op.Req, op.ReadFirst, op.CWFirst, rd.SlowGreet && e.exact, mkNonce(c.Idx, ri, k))
 			}()
 		}
 		wg.Wait()
@@ -544,6 +549,9 @@ func (s *state) judgeRound(c *caseSpec, ri int, rr *roundResult, exact bool) boo
 		// reporting the same protocol ID, and the bytes then exchanged flow between precisely those two endpoints"
 		if o.CWFirst {
 			r.Count("ok_"+path+"_first_use_is_a_closewrite", 1)
+		}
+		if o.PollTimeouts > 0 {
+			r.Count("ok_"+path+"_first_reads_timed_out_before_the_greeting", 1)
 		}
 		if o.ReplyNonce != o.Nonce {
 			j.viol("nonce-crosstalk", fmt.Sprintf("open %d wrote nonce %s and read back %s", o.K, o.Nonce, o.ReplyNonce))
